@@ -5,12 +5,16 @@
 pub enum Entropy {
     High,
     Low,
+    /// bytes that look like the format's own structures: block types (00 01 FF FE), the magic, 0x00 / 0xFF runs as long as
+    /// a block header, sign and carry boundaries (7F 80)
+    Struct,
 }
 
 impl Entropy {
     pub fn parse(s: &str) -> Self {
         match s {
             "low" => Self::Low,
+            "struct" => Self::Struct,
             _ => Self::High,
         }
     }
@@ -33,6 +37,17 @@ pub fn cell_byte(seed: u64, file: u64, idx: u64, e: Entropy) -> u8 {
         // runs of 61 identical bytes, value depends on file and run number: compresses very well,
         // yet a shifted or foreign byte is still detected at run edges
         Entropy::Low => (mix(seed ^ mix(file ^ 0x55) ^ (idx / 61)) & 0x3) as u8 + b'a',
+        Entropy::Struct => {
+            const ALPHA: [u8; 12] = [0x00, 0x01, 0xFF, 0xFE, b'M', b'L', b'A', 0x80, 0x7F, 0x00, 0xFF, 0x10];
+            let run = idx / 19;
+            let r = mix(seed ^ mix(file ^ 0x77) ^ run);
+            if r % 3 == 0 {
+                // a run of 19 identical structural bytes (longer than a block header)
+                ALPHA[(r >> 8) as usize % 4]
+            } else {
+                ALPHA[(mix(r ^ idx) >> 5) as usize % ALPHA.len()]
+            }
+        }
     }
 }
 
